@@ -408,6 +408,22 @@ def _visit(hist, rec, seen):
     ans2 = battery(est)
     est_r = build(hist)
     ans3 = battery(est_r, order=-1)
+    # ---- (c') queries interleaved with the history must not influence later answers:
+    #      replay the history with the full battery after EVERY step, then compare the final answers
+    est_q = new_est()
+    battery(est_q)
+    for i in hist:
+        impl_apply(est_q, OPS[i])
+        battery(est_q, order=(1 if i % 2 else -1))
+    ans5 = battery(est_q)
+    for q, ((st, cv, raw), mut) in ans1.items():
+        (st5, cv5, raw5), _ = ans5.get(q, (("missing", None, None), False))
+        same = (st, cv) == (st5, cv5)
+        rec.outcome("interleaved-queries/%s" % ("same" if same else "differs"))
+        if not same:
+            _v(rec, "c", dict(query=q, what="earlier-queries-change-answer", op=(OPS[hist[-1]][0] if hist else "init")),
+               "%s answers differently when queries were run between the registration calls (history %s)" % (q, hname), case,
+               observed=(raw5 if st5 == "ok" else cv5), expected=(raw if st == "ok" else cv), script=_script(hist))
     # ---- (b) differential: fresh object from the registered values
     try:
         fr = fresh_from(est)
